@@ -549,7 +549,16 @@ func runCase(c Case, u *vf.Unit, trace *any) *vf.Verdict {
 		// datagram receivers only end with the connection: wait for the stream work first
 		wgStreams(&wg, c, o, cconn, sconn, done)
 	}()
-	stalled := !sim.WaitCtx(done, 140*time.Second)
+	// a transfer limited by small flow-control windows needs size/window round trips: give it three times that
+	stallLimit := 140 * time.Second
+	if c.WinKB > 0 {
+		var total int
+		for _, s := range c.Streams {
+			total += s.Size + s.RevSize
+		}
+		stallLimit += 3 * time.Duration(total/(c.WinKB<<10)+1) * time.Duration(c.RTTms) * time.Millisecond
+	}
+	stalled := !sim.WaitCtx(done, stallLimit)
 	cerr, serr := context.Cause(cconn.Context()), context.Cause(sconn.Context())
 	endAt := w.Router.Now()
 	if cerr == nil && serr == nil {
@@ -678,7 +687,7 @@ func runCase(c Case, u *vf.Unit, trace *any) *vf.Verdict {
 	// something did not complete: it must be justified by the network
 	if cerr == nil && serr == nil {
 		if stalled {
-			return vf.Bad("C01/liveness/stall", "transfers did not finish within 140 s virtual time although neither connection reports an error; results: %s", summarize(o))
+			return vf.Bad("C01/liveness/stall", "transfers did not finish within the stall limit (140 s + 3 x size/window round trips of virtual time) although neither connection reports an error; results: %s", summarize(o))
 		}
 		return vf.Bad("C01/liveness/incomplete", "all calls returned, neither connection reports an error, but transfers are incomplete: %s", summarize(o))
 	}
